@@ -35,6 +35,18 @@ CLAIMED = {
  "C15": ("exploration", "bounded-exhaustive enumeration plus property-based generation (Hypothesis) of paths x file efuns x master policies, oracle over merged master-apply and interposed libc file-call logs",
          "All path strings over {a,b,.,/,#,space} up to length 4/5 (pairs up to 2 for two-path efuns) and generated long/dotted/hidden/over-long paths, for 21 file efuns, 7 loader forms (#include \"\", <>, inherit, load_object, clone_object, find_object(p,1), call_other) and three master policies. Per call: master asked first with path, caller and operation; denied means no libc file call and failure reported; every libc path is relative, has no '..' component and is the approved path or derived from it; canary files beside the mudlib stay untouched.",
          "Link-time interposition covers the path-taking libc functions the repository imports; ed() needs an interactive and is not driven; loaders are held to the path rules only."),
+ "C09": ("fault_enumeration", "property-based fault injection (Hypothesis event histories x fault plans x error-handler variants) through the real backend loop with canary observers",
+         "Histories of ticks (also before any connection, and 2000 s jumps), telnet/ASCII connects, complete/partial lines, TTYPE/NAWS sub-negotiations, orderly and reset disconnects, reconnects, with error() injected into 13 task kinds once/twice/always and a master error_handler that logs, fails or is absent. The driver must stay alive with no sanitizer report, backend() must not return, a canary user's command, a canary heart beat and canary call_outs must still be served, and every fired fault must be reported.",
+         "Network mode only (console worker not driven); when the master's handler itself fails, the driver's report of that failure counts as the report."),
+ "C12": ("exploration", "model-based property testing (Hypothesis arrival patterns vs a per-user queue model) over real loopback connections and the real backend loop",
+         "1-10 users, gaps from closed connections, 3-25 cycles with generated arrivals (one packet, trickled, partial lines), 'multi' commands issuing command() three times and 'kick' commands destructing another user mid-cycle; a cycle marker is taken before every backend cycle. In every cycle exactly the users with a complete line waiting execute exactly one buffered command, in the order sent; command()-issued commands all run in the same cycle.",
+         "Telnet ports only; single-character mode not driven; the model follows the order in which the driver served users within a cycle (which is unspecified)."),
+ "C13": ("exploration", "metamorphic property testing (Hypothesis byte streams x segmentations) over real loopback connections, plus a reference split for plain streams",
+         "Streams from a telnet/line grammar (text, CR/LF/NUL combinations, backspace/DEL, IAC IAC, IAC commands, option negotiation, complete/unterminated/oversized sub-negotiations, lines up to 3000 bytes) on telnet and ASCII ports, each fed in four segmentations (one write, byte-wise, random cuts, cuts inside every CR LF / IAC construct); the lines handed to the user object must be identical for all segmentations (lines <= 400 bytes), contain no negotiation bytes, and the connection must still deliver a probe line afterwards.",
+         "Over-long lines are only required to be handled safely; the absolute reference is asserted for plain streams only."),
+ "C14": ("fault_enumeration", "model-based property testing (Hypothesis write sequences x injected send() result schedules) comparing the bytes received on the client socket with a reference ring model",
+         "Write sequences with lengths around the 4096-byte ring and explicit flushes, under schedules of full / partial (incl. ending exactly at the wrap point) / EWOULDBLOCK / EINTR / EPIPE send() results injected at the libc boundary; the bytes read back from the real client socket must equal the reference ring model's output (in order, LF as CR LF, nothing duplicated, only the tail of a message dropped when the ring is full, nothing after EPIPE).",
+         "All writes of a case happen in one evaluation so that flush attempts occur only where the model expects them."),
 }
 NA_REASON = "check not yet built in this session (machinery under construction; see DESIGN.md section 4 for the planned check)"
 
